@@ -61,6 +61,12 @@ def generate() -> None:
         msg = (type(e).__name__ + ": " + str(e)).replace("\n", " ")[:300]
         G.write("C19.lean", "import Ptk.Model.C19Types\n-- table extraction from the current tree FAILED: "
                 + msg + "\nexample : False := by decide\n")
+    try:
+        _generate_x()
+    except Exception as e:  # noqa: BLE001
+        msg = (type(e).__name__ + ": " + str(e)).replace("\n", " ")[:300]
+        G.write("C19X.lean", "import Ptk.Model.C19Kw\n-- AST / table extraction from the current tree FAILED: "
+                + msg + "\nexample : False := by decide\n")
 
 
 def _generate() -> None:
@@ -117,6 +123,288 @@ def _generate() -> None:
           "    defaultAttrs := defaultAttrs, emptyAttrs := emptyAttrs, hexValidated := hexValidated }\n")
     b += "\nend Ptk.Gen.C19\n"
     G.write("C19.lean", b.replace("-- GENERATED by harness/gen_tables.py", "-- GENERATED by harness/gen_c19.py"))
+
+
+# ---------------------------------------------------------------------------------------------
+# Gen/C19X.lean: if/elif chains of the anchored functions extracted from their AST, the tables of
+# style_transformation.py / defaults.py, behaviour probes
+# ---------------------------------------------------------------------------------------------
+def _func_ast(fn):
+    import ast
+    import inspect
+    import textwrap
+    return ast.parse(textwrap.dedent(inspect.getsource(fn))).body[0]
+
+
+def _is_name(n, name):
+    import ast
+    return isinstance(n, ast.Name) and n.id == name
+
+
+def _const(n, typ):
+    import ast
+    return isinstance(n, ast.Constant) and type(n.value) is typ
+
+
+def _call_method(n, obj, meth):
+    """n is `obj.meth("lit")` -> the literal, else None"""
+    import ast
+    if (isinstance(n, ast.Call) and isinstance(n.func, ast.Attribute) and n.func.attr == meth
+            and _is_name(n.func.value, obj) and len(n.args) == 1 and _const(n.args[0], str) and not n.keywords):
+        return n.args[0].value
+    return None
+
+
+def _ptest(t) -> str:
+    import ast
+    if isinstance(t, ast.Compare) and _is_name(t.left, "part") and len(t.ops) == 1:
+        c = t.comparators[0]
+        if isinstance(t.ops[0], ast.Eq) and _const(c, str):
+            return f".eq {ltext(c.value)}"
+        if isinstance(t.ops[0], ast.In) and isinstance(c, ast.Tuple) and all(_const(e, str) for e in c.elts):
+            return ".isIn [" + ", ".join(ltext(e.value) for e in c.elts) + "]"
+    p = _call_method(t, "part", "startswith")
+    if p is not None:
+        return f".pfx {ltext(p)}"
+    if isinstance(t, ast.BoolOp) and isinstance(t.op, ast.And) and len(t.values) == 2:
+        p = _call_method(t.values[0], "part", "startswith")
+        q = _call_method(t.values[1], "part", "endswith")
+        if p is not None and q is not None:
+            return f".pfxSfx {ltext(p)} {ltext(q)}"
+    return ".unknown"
+
+
+def _pact(body) -> str:
+    import ast
+    if len(body) == 1 and isinstance(body[0], ast.Pass):
+        return ".pass"
+    if len(body) == 1 and isinstance(body[0], ast.Assign) and len(body[0].targets) == 1 \
+            and _is_name(body[0].targets[0], "attrs"):
+        v = body[0].value
+        if (isinstance(v, ast.Call) and isinstance(v.func, ast.Attribute) and v.func.attr == "_replace"
+                and _is_name(v.func.value, "attrs") and not v.args and len(v.keywords) == 1):
+            kw = v.keywords[0]
+            if _const(kw.value, bool):
+                return f".setFlag {ltext(kw.arg)} {'true' if kw.value.value else 'false'}"
+            c = kw.value
+            if isinstance(c, ast.Call) and _is_name(c.func, "parse_color") and len(c.args) == 1 and not c.keywords:
+                a = c.args[0]
+                if _is_name(a, "part"):
+                    return f".setColor {ltext(kw.arg)} 0"
+                if (isinstance(a, ast.Subscript) and _is_name(a.value, "part") and isinstance(a.slice, ast.Slice)
+                        and a.slice.upper is None and a.slice.step is None and _const(a.slice.lower, int)):
+                    return f".setColor {ltext(kw.arg)} {a.slice.lower.value}"
+    return ".unknown"
+
+
+def _if_chain(node):
+    """[(test | None, body)] of an if / elif / else chain"""
+    import ast
+    out = []
+    while True:
+        out.append((node.test, node.body))
+        if len(node.orelse) == 1 and isinstance(node.orelse[0], ast.If):
+            node = node.orelse[0]
+            continue
+        if node.orelse:
+            out.append((None, node.orelse))
+        return out
+
+
+def _generate_x() -> None:
+    import ast
+    from prompt_toolkit.styles import base as sbase
+    from prompt_toolkit.styles import style as sstyle
+    from prompt_toolkit.styles import style_transformation as strans
+    from prompt_toolkit.styles import defaults as sdef
+    from prompt_toolkit.output import vt100
+    from prompt_toolkit.formatted_text import ansi
+
+    b = "import Ptk.Model.C19Transform\nimport Ptk.Model.C19Kw\nnamespace Ptk.Gen.C19X\nopen Ptk.C19\n\n"
+    b += "/-- styles/base.py Attrs._fields -/\n"
+    b += "def attrsFields : List Text := " + llist(ltext(f) for f in sbase.Attrs._fields) + "\n\n"
+
+    # ---- _parse_style_str
+    fn = _func_ast(sstyle._parse_style_str)
+    first_if = next(n for n in fn.body if isinstance(n, ast.If))
+    word = ""
+    t = first_if.test
+    if isinstance(t, ast.Compare) and isinstance(t.ops[0], ast.In) and _const(t.left, str) \
+            and _is_name(t.comparators[0], "style_str"):
+        word = t.left.value
+    init = []
+    for body in (first_if.body, first_if.orelse):
+        if len(body) == 1 and isinstance(body[0], ast.Assign) and _is_name(body[0].targets[0], "attrs") \
+                and isinstance(body[0].value, ast.Name):
+            init.append(body[0].value.id)
+        else:
+            init.append("?")
+    b += "/-- styles/style.py _parse_style_str: the literal of `if \"…\" in style_str` and what `attrs` starts as -/\n"
+    b += "def noinheritWord : Text := " + ltext(word) + "\n"
+    b += "def parseInit : List Text := " + llist(ltext(x) for x in init) + "\n\n"
+    loop = next(n for n in fn.body if isinstance(n, ast.For))
+    ok_loop = (_is_name(loop.target, "part") and isinstance(loop.iter, ast.Call)
+               and isinstance(loop.iter.func, ast.Attribute) and loop.iter.func.attr == "split"
+               and _is_name(loop.iter.func.value, "style_str") and not loop.iter.args
+               and len(loop.body) == 1 and isinstance(loop.body[0], ast.If))
+    branches = []
+    if ok_loop:
+        for test, body in _if_chain(loop.body[0]):
+            branches.append("{ test := %s, act := %s }" % (".otherwise" if test is None else _ptest(test), _pact(body)))
+    else:
+        branches.append("{ test := .unknown, act := .unknown }")
+    b += "/-- styles/style.py _parse_style_str: the if/elif chain of `for part in style_str.split()` -/\n"
+    b += "def parseChain : List PBranch := " + llist(branches, 1) + "\n\n"
+
+    # ---- _merge_attrs
+    fn = _func_ast(sstyle._merge_attrs)
+    ret = next(n for n in fn.body if isinstance(n, ast.Return))
+    md = []
+    if isinstance(ret.value, ast.Call) and _is_name(ret.value.func, "Attrs"):
+        for kw in ret.value.keywords:
+            v = kw.value
+            if (isinstance(v, ast.Call) and _is_name(v.func, "_or") and len(v.args) == 2
+                    and isinstance(v.args[0], ast.Constant) and isinstance(v.args[1], ast.Starred)
+                    and isinstance(v.args[1].value, ast.ListComp)
+                    and isinstance(v.args[1].value.elt, ast.Attribute)):
+                md.append((kw.arg, repr(v.args[0].value), v.args[1].value.elt.attr))
+            else:
+                md.append((kw.arg, "?", "?"))
+    b += "/-- styles/style.py _merge_attrs: (field, fallback literal, attribute collected) per keyword of `Attrs(...)` -/\n"
+    b += "def mergeDefaults : List (Text × Text × Text) := " + llist(
+        (f"({ltext(f)}, {ltext(d)}, {ltext(a)})" for f, d, a in md), 2) + "\n\n"
+
+    # ---- _EscapeCodeCache.__missing__
+    fn = _func_ast(vt100._EscapeCodeCache.__missing__)
+    unpack = []
+    enc = []
+    enc_ok = True
+    for n in fn.body:
+        if isinstance(n, ast.Assign) and isinstance(n.targets[0], ast.Tuple) and _is_name(n.value, "attrs"):
+            unpack = [e.id for e in n.targets[0].elts]
+        if isinstance(n, ast.If):
+            if isinstance(n.test, ast.Name) and n.test.id != "parts":
+                body = n.body
+                if (len(body) == 1 and isinstance(body[0], ast.Expr) and not n.orelse
+                        and _call_method(body[0].value, "parts", "append") is not None
+                        and _call_method(body[0].value, "parts", "append").isdigit()):
+                    enc.append((n.test.id, int(_call_method(body[0].value, "parts", "append"))))
+                else:
+                    enc_ok = False
+    b += "/-- output/vt100.py _EscapeCodeCache.__missing__: names of the tuple unpacking of `attrs` -/\n"
+    b += "def unpackOrder : List Text := " + llist(ltext(x) for x in unpack) + "\n"
+    b += "/-- … and the `if <flag>: parts.append(\"<code>\")` statements in source order -/\n"
+    b += "def encFlags : List (Text × Nat) := " + llist((f"({ltext(f)}, {c})" for f, c in enc), 4) + "\n"
+    b += "def encFlagsOk : Bool := " + ("true" if enc_ok else "false") + "\n\n"
+
+    # ---- ANSI._select_graphic_rendition
+    fn = _func_ast(ansi.ANSI._select_graphic_rendition)
+    loop = next(n for n in fn.body if isinstance(n, ast.While))
+    chain_if = next(n for n in loop.body if isinstance(n, ast.If))
+    shape, dec, reset = [], [], []
+
+    def self_assigns(body):
+        out = []
+        for st in body:
+            if (isinstance(st, ast.Assign) and len(st.targets) == 1 and isinstance(st.targets[0], ast.Attribute)
+                    and _is_name(st.targets[0].value, "self") and isinstance(st.value, ast.Constant)):
+                out.append((st.targets[0].attr.lstrip("_"), st.value.value))
+            else:
+                return None
+        return out
+
+    for test, body in _if_chain(chain_if):
+        if test is None:
+            shape.append("else")
+        elif isinstance(test, ast.Compare) and _is_name(test.left, "attr") and isinstance(test.ops[0], ast.In) \
+                and isinstance(test.comparators[0], ast.Name):
+            shape.append("in " + test.comparators[0].id)
+        elif isinstance(test, ast.Compare) and _is_name(test.left, "attr") and isinstance(test.ops[0], ast.Eq) \
+                and _const(test.comparators[0], int):
+            sa = self_assigns(body)
+            if sa is not None and len(sa) == 1 and type(sa[0][1]) is bool:
+                dec.append((test.comparators[0].value, sa[0][0], sa[0][1]))
+                shape.append("flag")
+            else:
+                shape.append("?")
+        elif isinstance(test, ast.UnaryOp) and isinstance(test.op, ast.Not) and _is_name(test.operand, "attr"):
+            sa = self_assigns(body)
+            reset = sa if sa is not None else [("?", None)]
+            shape.append("reset")
+        elif isinstance(test, ast.BoolOp):
+            shape.append("extended")
+        else:
+            shape.append("?")
+    b += "/-- formatted_text/ansi.py ANSI._select_graphic_rendition: kinds of the branches in source order -/\n"
+    b += "def decShape : List Text := " + llist((ltext(x) for x in shape), 6) + "\n"
+    b += "/-- … the `elif attr == k: self._field = v` branches -/\n"
+    b += "def decFlags : List (Nat × Text × Bool) := " + llist(
+        (f"({k}, {ltext(f)}, {'true' if v else 'false'})" for k, f, v in dec), 3) + "\n"
+    b += "/-- … the fields assigned by the reset branch (`elif not attr:`) with the literal assigned -/\n"
+    b += "def decReset : List (Text × Text) := " + llist(
+        (f"({ltext(f)}, {ltext(repr(v))})" for f, v in reset), 3) + "\n\n"
+
+    # ---- ANSI._create_style_string
+    fn = _func_ast(ansi.ANSI._create_style_string)
+    words, colours = [], []
+    css_ok = True
+    for n in fn.body:
+        if isinstance(n, ast.If):
+            if (isinstance(n.test, ast.Attribute) and _is_name(n.test.value, "self") and len(n.body) == 1
+                    and isinstance(n.body[0], ast.Expr) and isinstance(n.body[0].value, ast.Call)
+                    and isinstance(n.body[0].value.func, ast.Attribute) and n.body[0].value.func.attr == "append"
+                    and len(n.body[0].value.args) == 1 and not n.orelse):
+                f = n.test.attr.lstrip("_")
+                a = n.body[0].value.args[0]
+                if _const(a, str):
+                    words.append((f, a.value))
+                elif isinstance(a, ast.Attribute) and a.attr == n.test.attr:
+                    colours.append((f, ""))
+                elif isinstance(a, ast.BinOp) and isinstance(a.op, ast.Add) and _const(a.left, str) \
+                        and isinstance(a.right, ast.Attribute) and a.right.attr == n.test.attr:
+                    colours.append((f, a.left.value))
+                else:
+                    css_ok = False
+            else:
+                css_ok = False
+    b += "/-- formatted_text/ansi.py ANSI._create_style_string: colour fields with their prefix, then flag words -/\n"
+    b += "def styleColours : List (Text × Text) := " + llist((f"({ltext(f)}, {ltext(w)})" for f, w in colours), 4) + "\n"
+    b += "def styleFlagWords : List (Text × Text) := " + llist((f"({ltext(f)}, {ltext(w)})" for f, w in words), 4) + "\n"
+    b += "def styleStringOk : Bool := " + ("true" if css_ok else "false") + "\n\n"
+
+    # ---- patterns / constants
+    b += "/-- styles/style.py CLASS_NAMES_RE.pattern -/\n"
+    b += "def classNamesRe : Text := " + ltext(sstyle.CLASS_NAMES_RE.pattern) + "\n"
+    b += "/-- styles/style.py Priority members (name, value) and the default priority -/\n"
+    b += "def priorities : List (Text × Text) := " + llist(
+        (f"({ltext(p.name)}, {ltext(str(p.value))})" for p in sstyle.Priority), 2) + "\n"
+    b += "def defaultPriority : Text := " + ltext(sstyle.default_priority.name) + "\n\n"
+
+    # ---- style_transformation.py
+    b += "/-- styles/style_transformation.py OPPOSITE_ANSI_COLOR_NAMES (dict order) -/\n"
+    b += "def opposite : List (Text × Text) := " + llist(
+        (f"({ltext(k)}, {ltext(v)})" for k, v in strans.OPPOSITE_ANSI_COLOR_NAMES.items()), 2) + "\n"
+    try:
+        strans.AdjustBrightnessStyleTransformation(min_brightness=0.3).transform_attrs(
+            sbase.DEFAULT_ATTRS._replace(color="default"))
+        skips = True
+    except ValueError:
+        skips = False
+    b += "/-- probe: AdjustBrightnessStyleTransformation(0.3).transform_attrs(color='default') does not raise -/\n"
+    b += "def adjustSkipsDefault : Bool := " + ("true" if skips else "false") + "\n"
+    b += "def trTables : TrTables := { opposite := opposite, adjustSkipsDefault := adjustSkipsDefault }\n\n"
+
+    # ---- defaults.py: the style stack of an Application
+    ui = sdef.default_ui_style()
+    sheets = [list(s.style_rules) for s in ui.styles]
+    b += "/-- styles/defaults.py default_ui_style(): the rule lists of the merged Style objects, in order -/\n"
+    b += "def uiSheets : List (List (Text × Text)) := " + llist(
+        (llist((f"({ltext(k)}, {ltext(v)})" for k, v in sh), 2) for sh in sheets), 1) + "\n\n"
+    b += "/-- styles/defaults.py default_pygments_style().style_rules -/\n"
+    b += "def pygRules : List (Text × Text) := " + llist(
+        (f"({ltext(k)}, {ltext(v)})" for k, v in sdef.default_pygments_style().style_rules), 2) + "\n\n"
+    b += "end Ptk.Gen.C19X\n"
+    G.write("C19X.lean", b.replace("-- GENERATED by harness/gen_tables.py", "-- GENERATED by harness/gen_c19.py"))
 
 
 if __name__ == "__main__":
